@@ -189,8 +189,9 @@ def run_unit(unit, twin=True, threads=6, outdir=None):
     if res["status"] == "pass" and not (run["rc"] == 0 and run["errors"] == 0 and run["verified"] > 0):
         res["status"] = "undecided"
         res["undecided"].append(f"verus rc={run['rc']} verified={run['verified']} errors={run['errors']}")
-    # vacuity twin: only meaningful when the unit itself passed
-    if twin and res["status"] == "pass":
+    # vacuity twin: run whenever verification itself ran to completion (also when obligations were
+    # refuted: known findings must not switch the vacuity guard off)
+    if twin and res["status"] in ("pass", "violation") and run["functions"]:
         try:
             rs2, meta2 = gen.write_unit(unit, twin=True, outdir=outdir)
             run2 = run_verus(rs2, threads)
@@ -214,7 +215,7 @@ def run_unit(unit, twin=True, threads=6, outdir=None):
                 res["undecided"].append("vacuity twin timed out")
             elif survivors:
                 res["status"] = "undecided"
-                res["undecided"].append("VACUOUS: `ensures false` verified for " + ", ".join(survivors))
+                res["undecided"].append("VACUOUS: `assert(false)` at function entry verified for " + ", ".join(survivors))
         except RsxError as ex:
             res["status"] = "undecided"
             res["undecided"].append(f"twin extraction: {ex}")
